@@ -1,25 +1,23 @@
-// Command h is the SUT-side tool: `h lts <sut> <edges.ndjson>` replays TLC's transition system
+// CLI shared by the per-property harness binaries: `h lts <sut> <edges.ndjson>` replays TLC's transition system
 // on the real object; `h record <sut>` records random histories of the real object as NDJSON.
-package main
+package core
 
 import (
 	"encoding/json"
 	"flag"
 	"fmt"
 	"os"
-
-	"verifharness/core"
-	_ "verifharness/sut/containers"
 )
 
-func main() {
+// Main is the entry point shared by the per-property binaries (cmd/<id>).
+func Main() {
 	if len(os.Args) < 2 {
 		fmt.Println("usage: h lts|record|list ...")
 		os.Exit(2)
 	}
 	switch os.Args[1] {
 	case "list":
-		for _, n := range core.Names() {
+		for _, n := range Names() {
 			fmt.Println(n)
 		}
 	case "lts":
@@ -31,23 +29,23 @@ func main() {
 		out := fs.String("out", "", "")
 		_ = fs.Parse(os.Args[4:])
 		name, path := os.Args[2], os.Args[3]
-		lts, err := core.LoadLTS(path)
+		lts, err := LoadLTS(path)
 		if err != nil {
 			fmt.Fprintln(os.Stderr, err)
 			os.Exit(2)
 		}
-		rep := core.Walk(name, core.New(name), lts, *seed, *walks, *depth, *maxm)
+		rep := Walk(name, New(name), lts, *seed, *walks, *depth, *maxm)
 		writeJSON(*out, rep)
 	case "path":
 		// h path <sut> <mismatch.json>: re-apply a recorded failing path; exit 1 if the real code
 		// still disagrees with every expected observation, 0 if it now conforms.
-		var m core.Mismatch
+		var m Mismatch
 		b, err := os.ReadFile(os.Args[3])
 		if err != nil || json.Unmarshal(b, &m) != nil {
 			fmt.Fprintln(os.Stderr, "cannot read", os.Args[3], err)
 			os.Exit(2)
 		}
-		os.Exit(core.ReplayPath(core.New(os.Args[2]), &m))
+		os.Exit(ReplayPath(New(os.Args[2]), &m))
 	case "record":
 		fs := flag.NewFlagSet("record", flag.ExitOnError)
 		seed := fs.Int64("seed", 1, "")
@@ -55,17 +53,29 @@ func main() {
 		length := fs.Int("len", 100, "")
 		out := fs.String("out", "", "")
 		_ = fs.Parse(os.Args[3:])
-		n, err := core.Record(core.New(os.Args[2]), *seed, *traces, *length, *out)
+		n, err := Record(New(os.Args[2]), *seed, *traces, *length, *out)
 		if err != nil {
 			fmt.Fprintln(os.Stderr, err)
 			os.Exit(2)
 		}
 		fmt.Printf("{\"events\": %d}\n", n)
 	default:
+		if f, ok := commands[os.Args[1]]; ok {
+			os.Exit(f(os.Args[2:]))
+		}
 		fmt.Println("unknown command")
 		os.Exit(2)
 	}
 }
+
+// commands are extra sub-commands registered by sut packages (drivers, schedulers).
+var commands = map[string]func(args []string) int{}
+
+// RegisterCommand adds a sub-command `h <name> args...`; f returns the exit code.
+func RegisterCommand(name string, f func(args []string) int) { commands[name] = f }
+
+// WriteJSON writes v (indented) to path, or stdout when path is empty.
+func WriteJSON(path string, v any) { writeJSON(path, v) }
 
 func writeJSON(path string, v any) {
 	b, _ := json.MarshalIndent(v, "", " ")
